@@ -55,6 +55,7 @@ class Conn:
             pos += ln
             self.bounds.append(pos)
         self.pos = 0
+        self.bi = 0                 # first segment bound not yet passed
         self.sent = []              # [(bytes, reply bytes delivered before this sendall)]
         self.recvs = []             # [(requested, returned)]
         self.calls = 0              # loop calls on this connection (livelock budget)
@@ -73,10 +74,11 @@ class Conn:
             self.recvs.append((n, 0))
             return b''
         end = len(self.stream)
-        for b in self.bounds:
-            if b > self.pos:
-                end = min(end, b)
-                break
+        bounds = self.bounds
+        while self.bi < len(bounds) and bounds[self.bi] <= self.pos:
+            self.bi += 1
+        if self.bi < len(bounds) and bounds[self.bi] < end:
+            end = bounds[self.bi]
         k = min(n, end - self.pos)
         data = self.stream[self.pos:self.pos + k]
         self.pos += k
@@ -197,6 +199,15 @@ class World:
                 return getattr(real_asyncio, name)
         self.asyncio_module = _Asyncio()
         self.loop = _Loop(self)
+
+    def reset(self, yields=False, dest_infos=None):
+        """forget every call and connection (a World is cheap to reuse, not to build)"""
+        self.yields = yields
+        self.calls = {}
+        self.current = None
+        self.dest_infos = dest_infos or {}
+        self.conns = []
+        return self
 
     # -- scripted attempts
     def add_call(self, cid, groups):
